@@ -82,6 +82,15 @@ def run(ctx, pid, clauses):
         raise vlib.Inconclusive("trace validation evaluated %d plans, harness recorded %d" % (nplans, sum(summary["plans"].values())))
     if nplans == 0:
         raise vlib.Inconclusive("trace validation evaluated no plan")
+    group = None
+    if pid == "C08":
+        # the plan as the members receive it: the real consumer group leader against the simulated coordinator
+        # (C07's machinery, spec/GroupTrace.tla clause sync_plan_complete), with a leaderless partition in the metadata
+        import c07
+        gviols, group, gtrace = c07.plan_family(ctx)
+        if not group.get("sync_plans_checked"):
+            raise vlib.Inconclusive("group plan family: no SyncGroup plan was observed")
+        viols += gviols
     cov = {
         "states": sat.distinct + ssat.distinct + sum(g["states"] for g in gstats),
         "transitions": sat.generated + ssat.generated + sum(g["generated"] for g in gstats),
@@ -94,7 +103,8 @@ def run(ctx, pid, clauses):
         "generation": gstats,
         "oracle_satisfiable_states": sat.distinct,
         "stickiness_satisfiable_states": ssat.distinct,
-        "clauses": sorted(clauses),
+        "clauses": sorted(clauses) + (["sync_plan_complete"] if group else []),
+        "group_level_plans": group,
         "exhaustive": True,
         "explanation": "every chain emitted by TLC from spec/Balance.tla is executed on the real range/roundrobin/sticky "
                        "Plan (sticky with real AssignmentData user data fed back, generations increasing, leavers keep "
